@@ -48,6 +48,7 @@ XLITS = [('3.0b', '3'), ('1.5b', '3/2'), ('0.75B', '3/4'), ('.5b', '1/2'), ('2.b
 XEXPRS = [('0.3k * 10', '3072'), ('0.1k + 2.9k', '3072'), ('0.3 * 1k', '1536/5'), ('1.5b * 2', '3'), ('3.5k - 0.5k', '3072'), ('0.3k * 5', '1536'),
           ('1.5k / 1', '1536'), ('0.75b + 0.25b', '1'),
           # written without blanks, and with signed literals
+          ('1KiB*2', '2048'), ('2*1Kb', '2000'), ('1MiB/1KiB', '1024'), ('1kB+24', '1024'), ('3Kib-1kIb', '2048'),
           ('1k*2', '2048'), ('2*1k', '2048'), ('1k+1', '1025'), ('1.5k-512', '1024'), ('3m/1k', '3072'), ('2k + -1k', '1024'), ('-1k + 2k', '1024'), ('2k - -1k', '3072'), ('1k*3', '3072')]
 # two literals in one condition whose spellings differ only in the decimal point, the letter case or a blank
 XPAIRS = [('2.5k', '25k'), ('25k', '2.5k'), ('1.5k', '15k'), ('1.0k', '10k'), ('0.3k', '3k'), ('1.5kb', '15kb'), ('3b', '3k'), ('3k', '3kb'), ('3kib', '3kb'), ('.3k', '3k'), ('0.30k', '0.3k'),
@@ -252,6 +253,22 @@ def eval_group(env, group, tier):
                         r.update(status='viol', cls='literal-pair-rows', sig=('pair', la, lb), detail={'query': q, 'got': sorted(o.rows())[:8], 'expected': exp[:8]})
                     else:
                         r.update(status='ok', sig=(la, lb, cond[:12]))
+                    outs.append(r)
+            for k_ in (('1k', 1024), ('0.5k', 512), ('1kb', 1000), ('3b', 3)) if 'op' not in group else ():
+                lit, v = k_
+                for cond, f in (('size - 1536 < %s and size - 1536 > -%s' % (lit, lit), lambda x: -v < x - 1536 < v), ('size > -%s and size < %s' % (lit, lit), lambda x: -v < x < v),
+                                ('size - 1536 between -%s and %s' % (lit, lit), lambda x: -v <= x - 1536 <= v), ('size - 3072 > %s or size - 3072 < -%s' % (lit, lit), lambda x: x - 3072 > v or x - 3072 < -v),
+                                ('-%s < size - 1024 and %s > size - 1024' % (lit, lit), lambda x: -v < x - 1024 < v)):
+                    q = 'name from . where %s into list' % cond
+                    o = env.run([q], cwd=root)
+                    exp = sorted('s%d' % x for x in XSIZES if f(x))
+                    r = {'case': {'kind': 'parse-x', 'pair': ['-' + lit, lit], 'query': q}, 'nt': True, 'layer': 'signed-literal-pairs', 'trans': len(XSIZES)}
+                    if o.timeout or o.rc != 0 or o.err:
+                        r.update(status='viol', cls='parse-x-status', detail=dict(o.brief(), query=q), sig=('err',))
+                    elif sorted(o.rows()) != exp:
+                        r.update(status='viol', cls='signed-literal-pair-rows', sig=('spair', lit), detail={'query': q, 'got': sorted(o.rows())[:8], 'expected': exp[:8]})
+                    else:
+                        r.update(status='ok', sig=('spair', lit, cond[:14]))
                     outs.append(r)
             for is_expr, items in ((False, group['lits']), (True, group['exprs'])):
                 for lit, val in items:
